@@ -839,6 +839,9 @@ func runC07(c *xs.Ctx, r *xs.Result) {
 	}
 	// the schedule exploration is cheap and goes first; the sequential search takes the rest of the budget
 	runSched(c, r)
+	if c.Shard == 0 {
+		runRacePass(c, r) // the same writer / reader bodies free-running under the race detector (auxiliary: reports only)
+	}
 	longHistories(c, r)
 	for _, ldb := range []bool{true, false} {
 		bfs(c, r, ldb, b)
